@@ -200,5 +200,162 @@ async fn try_create<T, E>(p: &mut Pool<T>, Ghost(m0): Ghost<Mine>) -> (res: (Ctl
     let r = unready_obj.inner.take().unwrap();           // unready_obj.ready()
     (Ctl::Done(Ok(Some(r))), Ghost(m))
 }
+
+impl<T> Pool<T> {
+    #[verifier::external_body]
+    async fn await_recycle<E>(&mut self, obj: &mut ObjectInner<T>, Ghost(m): Ghost<Mine>) -> (r: Ctl<Result<(), E>>)
+        requires inv(old(self), m)
+        ensures inv(final(self), m), final(self).slots.max_size == old(self).slots.max_size,
+                final(obj).metrics == old(obj).metrics
+    { unimplemented!() }
+}
+
+// real: Pool::try_recycle
+async fn try_recycle<T, E>(p: &mut Pool<T>, inner_obj: ObjectInner<T>, Ghost(m0): Ghost<Mine>) -> (res: (Ctl<Result<Option<ObjectInner<T>>, PoolError<E>>>, Ghost<Mine>))
+    requires inv(old(p), m0), m0.held == 1, m0.creating == 0, m0.inhand == 1, inner_obj.metrics.recycle_count < usize::MAX
+    ensures inv(final(p), res.1@), final(p).slots.max_size == old(p).slots.max_size,
+        res.0 matches Ctl::Done(Ok(Some(o))) ==> res.1@ == m0 && o.metrics.recycle_count == inner_obj.metrics.recycle_count + 1,
+        !(res.0 matches Ctl::Done(Ok(Some(_)))) ==> res.1@ == (Mine { inhand: 0, ..m0 }),
+        !(res.0 matches Ctl::Done(Err(_))),       // recycle failures never surface (C04)
+{
+    let ghost m = m0;
+    let mut unready_obj = UnreadyObject { inner: Some(inner_obj) };
+    let mut tmp = unready_obj.inner.take().unwrap();
+    let h1 = p.await_hook::<E>(&mut tmp, Ghost(m)).await;      // pre_recycle
+    match h1 {
+        Ctl::Unwind => { unready_obj.inner = Some(tmp); let mm = unready_drop(p, unready_obj, Ghost(m)); return (Ctl::Unwind, mm); }
+        Ctl::Done(Err(_e)) => { unready_obj.inner = Some(tmp); let mm = unready_drop(p, unready_obj, Ghost(m)); return (Ctl::Done(Ok(None)), mm); }
+        Ctl::Done(Ok(())) => {}
+    }
+    let rr = p.await_recycle::<E>(&mut tmp, Ghost(m)).await;
+    match rr {
+        Ctl::Unwind => { unready_obj.inner = Some(tmp); let mm = unready_drop(p, unready_obj, Ghost(m)); return (Ctl::Unwind, mm); }
+        Ctl::Done(Err(_e)) => { unready_obj.inner = Some(tmp); let mm = unready_drop(p, unready_obj, Ghost(m)); return (Ctl::Done(Ok(None)), mm); }
+        Ctl::Done(Ok(())) => {}
+    }
+    let h2 = p.await_hook::<E>(&mut tmp, Ghost(m)).await;      // post_recycle
+    match h2 {
+        Ctl::Unwind => { unready_obj.inner = Some(tmp); let mm = unready_drop(p, unready_obj, Ghost(m)); return (Ctl::Unwind, mm); }
+        Ctl::Done(Err(_e)) => { unready_obj.inner = Some(tmp); let mm = unready_drop(p, unready_obj, Ghost(m)); return (Ctl::Done(Ok(None)), mm); }
+        Ctl::Done(Ok(())) => {}
+    }
+    tmp.metrics.recycle_count += 1;
+    (Ctl::Done(Ok(Some(tmp))), Ghost(m))
+}
+
+// DropGuard closure body: users.fetch_sub(1)
+fn users_guard_fire<T>(p: &mut Pool<T>, Ghost(m0): Ghost<Mine>) -> (mm: Ghost<Mine>)
+    requires inv(old(p), m0), m0.armed >= 1
+    ensures inv(final(p), mm@), mm@ == (Mine { armed: m0.armed - 1, ..m0 }), final(p).slots.max_size == old(p).slots.max_size
+{
+    let ghost mut m = m0;
+    p.interfere(Ghost(m));
+    assert(p.users > 0);          // no-wrap obligation of fetch_sub
+    p.users = p.users - 1;
+    proof { p.g@.armed = p.g@.armed - 1; m.armed = m.armed - 1; }
+    Ghost(m)
+}
+
+fn permit_release<T>(p: &mut Pool<T>, permit: Permit, Ghost(m0): Ghost<Mine>) -> (mm: Ghost<Mine>)
+    requires inv(old(p), m0), m0.held == 1, m0.inhand == 0, m0.creating == 0
+    ensures inv(final(p), mm@), mm@ == (Mine { held: 0, ..m0 }), final(p).slots.max_size == old(p).slots.max_size
+{
+    let ghost mut m = m0;
+    p.interfere(Ghost(m));
+    assume(p.sem.permits < usize::MAX);
+    p.permit_drop(permit);
+    proof { m.held = 0; }
+    Ghost(m)
+}
+
+// real: Pool::timeout_get (wrapper conversion `.into()` dropped)
+#[verifier::exec_allows_no_decreases_clause]
+#[verifier::loop_isolation(false)]
+#[verifier::allow_complex_invariants]
+async fn timeout_get<T, E>(p: &mut Pool<T>, non_blocking: bool, mode: QueueMode, Ghost(m0): Ghost<Mine>) -> (res: (Ctl<Result<ObjectInner<T>, PoolError<E>>>, Ghost<Mine>))
+    requires inv(old(p), m0), m0.held == 0, m0.inhand == 0, m0.creating == 0, m0.upre == 0
+    ensures inv(final(p), res.1@), final(p).slots.max_size == old(p).slots.max_size,
+        res.0 matches Ctl::Done(Ok(_)) ==> res.1@ == (Mine { objs: m0.objs + 1, ..m0 }),
+        !(res.0 matches Ctl::Done(Ok(_))) ==> res.1@ == m0,
+{
+    let ghost mut m = m0;
+    p.interfere(Ghost(m));
+    assume(p.users < usize::MAX);                    // A8: increments do not reach 2^64
+    p.users = p.users + 1;
+    proof { p.g@.armed = p.g@.armed + 1; m.armed = m.armed + 1; }
+    let users_guard = DropGuard { armed: true };
+
+    let permit = if non_blocking {
+        p.interfere(Ghost(m));
+        match p.try_acquire(Ghost(m)) {
+            Ok(pm) => { proof { m.held = 1; } pm }
+            Err(e) => {
+                let mm = users_guard_fire(p, Ghost(m));
+                return (Ctl::Done(Err(match e { TryAcquireError::Closed => PoolError::Closed, TryAcquireError::NoPermits => PoolError::TimeoutWait })), mm);
+            }
+        }
+    } else {
+        match p.await_acquire(Ghost(m)).await {
+            Ctl::Done(Ok(pm)) => { proof { m.held = 1; } pm }
+            Ctl::Done(Err(())) => { let mm = users_guard_fire(p, Ghost(m)); return (Ctl::Done(Err(PoolError::Closed)), mm); }
+            Ctl::Unwind => { let mm = users_guard_fire(p, Ghost(m)); return (Ctl::Unwind, mm); }
+        }
+    };
+
+    let mut result: Option<ObjectInner<T>> = None;
+    loop
+        invariant inv(p, m), m == (Mine { held: 1, armed: m0.armed + 1, ..m0 }), p.slots.max_size == old(p).slots.max_size, result.is_none()
+        ensures inv(p, m), m == (Mine { held: 1, inhand: 1, armed: m0.armed + 1, ..m0 }), p.slots.max_size == old(p).slots.max_size, result.is_some()
+    {
+        p.interfere(Ghost(m));
+        assert(mine_ok(m));
+        assert(m.held == 1 && m.inhand == 0 && m.creating == 0);
+        let ghost len0 = p.slots.vec@.len();
+        let inner_obj = match mode {
+            QueueMode::Fifo => p.slots.vec.pop_front(),
+            QueueMode::Lifo => p.slots.vec.pop_back(),
+        };
+        proof {
+            if inner_obj.is_some() { p.g@.inhand = p.g@.inhand + 1; m.inhand = 1; }
+            else { p.g@.creating = p.g@.creating + 1; m.creating = 1; }
+        }
+        assert(inner_obj.is_some() ==> p.slots.vec@.len() == len0 - 1);
+        assert(inner_obj.is_none() ==> len0 == 0 && p.slots.vec@.len() == 0);
+        assert(m.held == 1);
+        assert(m.inhand + m.creating == 1);
+        assert(mine_ok(m));
+        assert(p.slots.size as int == p.slots.vec@.len() + p.g@.inhand + p.g@.out);
+        assert(p.slots.vec@.len() as int <= p.sem.permits + p.g@.rlimbo + (p.g@.held - p.g@.inhand - p.g@.creating));
+        assert((p.g@.inhand - m.inhand) + (p.g@.creating - m.creating) <= (p.g@.held - m.held));
+        assert(inv(p, m));
+        let (r, mm) = if let Some(inner_obj) = inner_obj {
+            assume(inner_obj.metrics.recycle_count < usize::MAX);   // A8
+            try_recycle::<T, E>(p, inner_obj, Ghost(m)).await
+        } else {
+            try_create::<T, E>(p, Ghost(m)).await
+        };
+        proof { m = mm@; }
+        match r {
+            Ctl::Unwind => {
+                let m1 = permit_release(p, permit, Ghost(m));
+                let m2 = users_guard_fire(p, m1);
+                return (Ctl::Unwind, m2);
+            }
+            Ctl::Done(Err(e)) => {
+                let m1 = permit_release(p, permit, Ghost(m));
+                let m2 = users_guard_fire(p, m1);
+                return (Ctl::Done(Err(e)), m2);
+            }
+            Ctl::Done(Ok(Some(o))) => { result = Some(o); break; }
+            Ctl::Done(Ok(None)) => {}
+        }
+    }
+    // users_guard.disarm(); permit.forget();
+    proof {
+        p.g@.armed = p.g@.armed - 1; p.g@.held = p.g@.held - 1; p.g@.inhand = p.g@.inhand - 1; p.g@.out = p.g@.out + 1;
+        m.armed = m.armed - 1; m.held = 0; m.inhand = 0; m.objs = m.objs + 1;
+    }
+    (Ctl::Done(Ok(result.unwrap())), Ghost(m))
+}
 } // verus!
 fn main() {}
